@@ -598,3 +598,66 @@ def rule_abs_tolerance(ctx, R, funcs, what):
                        f"shortcut it guards changes the result when the inputs are rescaled; {what}", c, evidence=True)
     ctx.instance(R, 0)
     ctx.ob(R, "darsia", f"{n} function(s) scanned for default-tolerance comparisons of data", True, "", None)
+
+
+# ---- optional parameters are compared with None, not tested for truth ----------------------------------------------------------------
+
+def rule_optional_truthiness(ctx, R, modules, what):
+    """A parameter whose default is None stands for 'not given'.  Testing it by truth value (`pt or 0.5`, `if not offset`) also treats the
+    legitimate values 0, 0.0 and empty arrays as 'not given' (and raises for arrays with several entries)."""
+    ctx.rule(R, "optional parameters (default None) of the anchored modules are tested with `is None`, never by truth value: a point at 0, an "
+             "offset of 0 or a tolerance of 0 given explicitly is a value, not the absence of one")
+    n = 0
+    for mn in modules:
+        mod = ctx.model.mod(mn)
+        for f in list(mod.funcs.values()) + [g for c in mod.classes.values() for g in c.methods.values()]:
+            a = f.node.args
+            params = a.posonlyargs + a.args
+            dflt = dict(zip(params[len(params) - len(a.defaults):], a.defaults))
+            dflt.update({p_: d for p_, d in zip(a.kwonlyargs, a.kw_defaults) if d is not None})
+            opt = {}
+            for p_, d in dflt.items():
+                if isinstance(d, ast.Constant) and d.value is None:
+                    ann = norm(p_.annotation) if p_.annotation is not None else ""
+                    if any(w in ann for w in ("list", "List", "dict", "Dict", "str", "bool", "allable", "Path", "tuple", "Tuple", "Image", "Grid", "Model", "Solver", "datetime")):
+                        continue  # containers, flags, names and objects: their truth value is their presence
+                    opt[p_.arg] = p_
+            if not opt:
+                continue
+            n += 1
+            rebound = {t.id for s_ in ast.walk(f.node) if isinstance(s_, ast.Assign) for t in s_.targets if isinstance(t, ast.Name)}
+            reach = None
+            if rebound & set(opt):
+                # the name is re-bound somewhere: a use counts when the value the caller passed can still reach it
+                from .. import cfg as C_
+
+                try:
+                    g_ = C_.CFG(f.node)
+                    RD_, _ = C_.reaching_definitions(g_, f.params)
+                    node_of = {id(n_.stmt): n_.id for n_ in g_.nodes if n_.stmt is not None}
+
+                    def reach(expr, name, g_=g_, RD_=RD_, node_of=node_of):
+                        cur = expr
+                        while cur is not None and cur is not f.node and id(cur) not in node_of:
+                            cur = getattr(cur, "_parent", None)
+                        nid = node_of.get(id(cur))
+                        return nid is not None and any(nme == name and g_.nodes[i].kind == "entry" for nme, i in RD_.get(nid, ()))
+                except Exception:
+                    reach = None
+            for x in ast.walk(f.node):
+                tests = []
+                if isinstance(x, (ast.If, ast.IfExp, ast.While)):
+                    tests.append(x.test)
+                elif isinstance(x, ast.BoolOp):
+                    tests.extend(x.values[:-1] if isinstance(x.op, ast.Or) else x.values)
+                elif isinstance(x, ast.UnaryOp) and isinstance(x.op, ast.Not):
+                    tests.append(x.operand)
+                for t in tests:
+                    while isinstance(t, ast.UnaryOp) and isinstance(t.op, ast.Not):
+                        t = t.operand
+                    if isinstance(t, ast.Name) and t.id in opt and (t.id not in rebound or (reach is not None and reach(x, t.id))):
+                        ctx.instance(R)
+                        ctx.ob(R, f.qname, f"the optional `{t.id}` is compared with None", False,
+                               f"`{norm(x)[:80]}` uses `{t.id}` as a truth value: an explicit 0 / 0.0 (or an empty array) is treated as 'not given'; {what}", x, evidence=True)
+    ctx.instance(R, 0)
+    ctx.ob(R, "darsia", f"{n} function(s) with optional non-container parameters scanned for truth-value tests", True, "", None)
